@@ -2,7 +2,9 @@
 
 Generated (vf.gen.resolverworld):
   * policy worlds - profile 'mono': every dependency is unversioned or `>=` (optionally slotted), no blockers, so the
-    highest version of a slot satisfies whatever a lower one satisfies and choices cannot conflict; ONE target;
+    highest version of a slot satisfies whatever a lower one satisfies and choices cannot conflict; dependency cycles
+    only through PDEPEND (other cycles are accepted by the resolver only under context-dependent conditions, and a
+    build-time dependency on the package's own name is only taken from the installed db); ONE target;
     upgrade_resolver / min_install_resolver as pmerge builds them (verify_vdb on/off, lists or RepositoryGroup; no
     empty-tree / force-replace, which deliberately ignore or re-merge installed packages).
   * determinism worlds - profile 'full' (everything C15 generates, all resolver switches, 1-3 targets).
@@ -50,7 +52,7 @@ LEVEL_NOTE = (
     "cover single-target requests on monotone universes only. No proof of absence."
 )
 RULE = (
-    "policy: mono worlds (2-5 names, <=12 packages, any-of groups, all five classes, cycles) + one target; non-trivial = "
+    "policy: mono worlds (2-5 names, <=12 packages, any-of groups, all five classes, `>=`/slot deps, cycles through PDEPEND only) + one target; non-trivial = "
     ">=2 distinct candidate versions match the target, >=1 package of that name is installed, the precondition of P1/P2 "
     "holds and the resolver succeeded; determinism: full worlds, non-trivial = success with >=2 plan operations; "
     "distinct = JSON of the world"
